@@ -64,7 +64,7 @@ def payload(version, depth, fp, index, chain, key33):
     return version.to_bytes(4, "big") + bytes([depth]) + fp + index.to_bytes(4, "big") + chain + key33
 
 
-def cases(rng, tier):
+def _cases_core(rng, tier):
     n = 25 if tier == "quick" else 1500
     for i in range(n):
         spec, k = node_spec(rng, prv=True)
@@ -205,3 +205,9 @@ def oracle(line, out):
 
 
 known_match = common.no_known
+
+
+def cases(rng, tier):
+    from . import extra
+    yield from _cases_core(rng, tier)
+    yield from extra.cases_for('versions', rng, tier)
